@@ -19,6 +19,31 @@ from yamlpath.exceptions import YAMLPathException
 from yamlpath.wrappers import NodeCoords
 from yamlpath import YAMLPath
 
+class _ValueGroups(dict):
+    """
+    Group nodes by value, even when the value is not hashable.
+
+    unique() and distinct() key a dict on each member's value; Hashes, Arrays,
+    and Sets are not hashable, so equal ones are keyed on their rendering.
+    """
+
+    @staticmethod
+    def _key(value: Any) -> Any:
+        try:
+            hash(value)
+        except TypeError:
+            return (_ValueGroups, repr(value))
+        return value
+
+    def __contains__(self, value: Any) -> bool:
+        return super().__contains__(_ValueGroups._key(value))
+
+    def __getitem__(self, value: Any) -> Any:
+        return super().__getitem__(_ValueGroups._key(value))
+
+    def __setitem__(self, value: Any, item: Any) -> None:
+        super().__setitem__(_ValueGroups._key(value), item)
+
 class KeywordSearches:
     """Helper methods for common data searching operations."""
 
@@ -950,7 +975,7 @@ class KeywordSearches:
 
         scan_node: Optional[str] = parameters[0] if param_count > 0 else None
         unwrapped_data: Any = NodeCoords.unwrap_node_coords(data)
-        seen_values: Dict[Any, List[NodeCoords]] = {}
+        seen_values: Dict[Any, List[NodeCoords]] = _ValueGroups()
         if Nodes.node_is_aoh(
             unwrapped_data, accept_nulls=True
         ):
@@ -1092,7 +1117,7 @@ class KeywordSearches:
 
         scan_node: Optional[str] = parameters[0] if param_count > 0 else None
         unwrapped_data: Any = NodeCoords.unwrap_node_coords(data)
-        seen_values: Dict[Any, List[NodeCoords]] = {}
+        seen_values: Dict[Any, List[NodeCoords]] = _ValueGroups()
         if Nodes.node_is_aoh(
             unwrapped_data, accept_nulls=True
         ):
